@@ -66,6 +66,8 @@ def gen_cases(chk):
             kw["flags"] = Raw(ci_encode(flags, pad=r.randrange(1, 4)))
             kw["count"] = Raw(ci_encode(nch, pad=r.randrange(1, 8)))
         out.append({"kind": "valid", "spec": _ser(kw), "i": i})
+        if i % 7 == 3:
+            out.append({"kind": "valid", "spec": _ser(kw), "i": i, "preceded": 1 + i})
     for i in range(n_mut):
         ht = r.randrange(4)
         cht = r.choice([1, 2])
@@ -258,7 +260,7 @@ def worker(case):
     keep = False
     kw = _deser(case["spec"])
     data = zckref.build(**kw)
-    cid = core.h8(case["spec"])
+    cid = core.h8([case["spec"], case.get("preceded")])
     stats = {"headers": 1}
     try:
         try:
@@ -270,7 +272,14 @@ def worker(case):
             p = None
             refinv = str(e)
         script = "fopen 1 f.zck r input\ncreate 1\ninit_read 1 1\nis_error 1\nmeta 1\n"
-        rd = core.run_zh(case["zh"], cdir, script, {"f.zck": data}, name="meta")
+        fdata_ = data
+        if case.get("preceded"):
+            # another, different, well-formed image precedes this one in the file; the descriptor is handed over positioned at ours
+            front = zckref.make_file([b"front-image-%d" % k * 7 for k in range(3)], comp_type=0, hash_type=case["preceded"] % 4, chunk_hash_type=1)
+            fdata_ = front + data
+            script = script.replace("fopen 1 f.zck r input", "fopen 1 f.zck r input %d" % len(front))
+            stats["images_behind_another_image"] = 1
+        rd = core.run_zh(case["zh"], cdir, script, {"f.zck": fdata_}, name="meta")
         if rd.timed_out and not rd.cpu_exceeded:
             return core.verdict(cid, "inconclusive", detail="watchdog", case=case)
         ir = rd.first(op="init_read")
